@@ -318,6 +318,55 @@ pub fn builder(r: &mut Rng, n: u64, thorough: bool, out: &mut Out) {
             (base_v.clone(), mk(&["m", "A"], "T", Some(0), var("V", fld(None, 1, Some("X"), &["fd"]), 1, &["vd"]), &["D"])),
             (base_c.clone(), base_v.clone()),
         ];
+        // ... and A' = A with one list EXTENDED by an element (every list of a type: members, variants, a variant's members,
+        // parameters, docs, path): a comparison that walks the shorter list only takes them for equal
+        let mut pairs = pairs;
+        {
+            use scale_info::TypeDef;
+            let ext = |f: &dyn Fn(&mut Type<PortableForm>)| -> Type<PortableForm> {
+                let mut t = base_c.clone();
+                f(&mut t);
+                t
+            };
+            pairs.push((base_c.clone(), ext(&|t| {
+                if let TypeDef::Composite(c) = &mut t.type_def {
+                    c.fields.push(fld(Some("g"), 0, None, &[]));
+                }
+            })));
+            pairs.push((base_c.clone(), ext(&|t| t.docs.push("E".to_string()))));
+            pairs.push((base_c.clone(), ext(&|t| t.path.segments.push("B".to_string()))));
+            pairs.push((base_c.clone(), ext(&|t| t.type_params.push(TypeParameter::new_portable("U".to_string(), None)))));
+            pairs.push((base_c.clone(), ext(&|t| {
+                if let TypeDef::Composite(c) = &mut t.type_def {
+                    c.fields[1].docs.push("e".to_string());
+                }
+            })));
+            let mut v2 = base_v.clone();
+            if let TypeDef::Variant(v) = &mut v2.type_def {
+                v.variants.push(Variant::new("W".to_string(), Vec::<Field<PortableForm>>::new(), 2, Vec::<String>::new()));
+            }
+            pairs.push((base_v.clone(), v2));
+            let mut v3 = base_v.clone();
+            if let TypeDef::Variant(v) = &mut v3.type_def {
+                v.variants[0].fields.push(fld(None, 0, None, &[]));
+            }
+            pairs.push((base_v.clone(), v3));
+            let mut v4 = base_v.clone();
+            if let TypeDef::Variant(v) = &mut v4.type_def {
+                v.variants[0].docs.push("more".to_string());
+            }
+            pairs.push((base_v.clone(), v4));
+            let tup = |ids: &[u32]| -> Type<PortableForm> {
+                Type::new(
+                    Path::from_segments_unchecked(Vec::<String>::new()),
+                    Vec::new(),
+                    scale_info::TypeDefTuple::new_portable(ids.iter().map(|i| (*i).into()).collect::<Vec<_>>()),
+                    Vec::<String>::new(),
+                )
+            };
+            pairs.push((tup(&[0, 0]), tup(&[0, 0, 0])));
+            pairs.push((tup(&[]), tup(&[0])));
+        }
         for (k, (a, a2)) in pairs.into_iter().enumerate() {
             for order in 0..2 {
                 let (x, y) = if order == 0 { (a.clone(), a2.clone()) } else { (a2.clone(), a.clone()) };
